@@ -8,6 +8,7 @@ import GettsimVerif.Core.Sym
 import GettsimVerif.Core.Sign
 import GettsimVerif.Core.TypeInfer
 import GettsimVerif.Core.PEval
+import GettsimVerif.Core.Simulate
 /- Dispatch of the line protocol to the executable models. -/
 open Lean GV
 
@@ -111,6 +112,59 @@ def opTypeInfer (envs : List (String × Lang.Val)) (j : Json) : Except String Js
     | _ => pure []
   pure (Json.mkObj (base ++ extra))
 
+/-! ### the end-to-end model `Core/Simulate.lean` on a whole rule system (tie T4) -/
+
+def jTy (j : Json) : Except String (Option Simulate.Ty) :=
+  match j with
+  | .str "float" => pure (some .float) | .str "int" => pure (some .int) | .str "bool" => pure (some .bool)
+  | .null => pure none
+  | _ => throw "bad return annotation (float | int | bool | null)"
+
+def jAggr : String → Except String Simulate.Aggr
+  | "sum" => pure .sum | "mean" => pure .mean | "max" => pure .max | "min" => pure .min
+  | "any" => pure .any | "all" => pure .all | "count" => pure .count
+  | s => throw s!"aggregation {s} is not modelled"
+
+/-- {"op":"simulate","rules":[{"fun":F,"ret":"float"|"int"|"bool"|null,"key":<rounding key or null>}],
+     "params":[names of trees stored by "set_trees"],
+     "group_specs":[[name,{"aggr":…,"source_col":…?}]], "pid_specs":[[name,{"p_id_to_aggregate_by":…,"source_col":…}]],
+     "data":[[name,[Val…]]], "targets":[…], "rounding":bool}
+→ {"ok":[[name,[Val…]]]} (the columns of `Simulate.simulate`, i.e. in the order of the sorted targets)
+  or {"error":"<error class>"}.  The name of a rule in the DAG is `F.name`. -/
+def opSimulate (envs : List (String × Lang.Val)) (j : Json) : Except String Json := do
+  let rules ← (← jArr (← field j "rules")).mapM fun r => do
+    let f ← jFun (← field r "fun")
+    let ret ← match r.getObjVal? "ret" with
+      | .ok v => jTy v
+      | .error _ => pure none
+    pure ({ name := f.name, fn := f, ret := ret, roundingKey := ← optStrN r "key" } : Simulate.Rule)
+  let params ← (← strs j "params").mapM fun g => match envs.find? (·.1 = g) with
+    | some (_, v) => pure (g, v)
+    | none => throw s!"unknown tree {g}"
+  let groupSpecs ← (← jArr (← field j "group_specs")).mapM fun e => match e with
+    | .arr #[.str n, s] => do
+      pure (n, ({ aggr := ← jAggr (← str s "aggr"), source := ← optStrN s "source_col" } : Simulate.GroupSpec))
+    | _ => throw "bad group spec"
+  let pidSpecs ← (← jArr (← field j "pid_specs")).mapM fun e => match e with
+    | .arr #[.str n, s] => do
+      pure (n, ({ pIdToAggregateBy := ← str s "p_id_to_aggregate_by", source := ← str s "source_col" } : Simulate.PidSpec))
+    | _ => throw "bad p_id spec"
+  let data ← (← jArr (← field j "data")).mapM fun e => match e with
+    | .arr #[.str n, .arr vs] => do pure (n, ← vs.toList.mapM jVal)
+    | _ => throw "bad data column"
+  let inp : Simulate.Input :=
+    { rules, params, groupSpecs, pidSpecs, data, targets := ← strs j "targets", rounding := ← bool j "rounding" }
+  match Simulate.simulate inp with
+  | .ok t => pure (Json.mkObj [("ok", .arr (t.map fun (n, c) => Json.arr #[.str n, .arr (c.map oVal).toArray]).toArray)])
+  | .error e => pure (Json.mkObj [("error", .str (toString e))])
+where
+  optStrN (j : Json) (k : String) : Except String (Option String) :=
+    match j.getObjVal? k with
+    | .ok (.str s) => pure (some s)
+    | .ok .null => pure none
+    | .ok _ => throw s!"{k}: string or null expected"
+    | .error _ => pure none
+
 def statefulOp (st : St) (op : String) (j : Json) : Except String (Option (St × Json)) := do
   match op with
   | "load_raw" => let st' ← opLoadRaw j; pure (some (st', Json.mkObj [("ok", .str "loaded")]))
@@ -126,6 +180,7 @@ def statefulOp (st : St) (op : String) (j : Json) : Except String (Option (St ×
       | _ => throw "bad tree entry"
     pure (some ({ st with envs := kvs }, Json.mkObj [("ok", .str "stored")]))
   | "type_infer" => pure (some (st, ← opTypeInfer st.envs j))
+  | "simulate" => pure (some (st, ← opSimulate st.envs j))
   | "run_rule" =>
     -- {"fun": F, "fixed": [[argname, treename]], "rows": [[vals for the remaining args in order]]}
     let f ← jFun (← field j "fun")
